@@ -475,10 +475,7 @@ func (cx *Ctx) exactNameLookupRule(r *Report, mod string, prefixes []string, rul
 		}
 		dfs(G, nil, 0)
 		for _, st := range sites {
-			key := st.ci.Common().Args[0]
-			if !st.ci.Common().IsInvoke() && len(st.ci.Common().Args) > 1 {
-				key = st.ci.Common().Args[1]
-			}
+			key := storeArgs(st.ci)[0]
 			isP := func(v ssa.Value, _ []*ssa.Call) bool { return v == ssa.Value(sp) }
 			full := cx.newSlicer(isP, false)
 			if !full.derives(key, st.stack, -1) {
